@@ -31,7 +31,7 @@ class Via:
 class Contract:
     def __init__(self, file, qual, *, props, params=None, free=None, via=None, requires=(), post=None, loops=None,
                  cover=(), native=None, name=None, clause_props=None, generator=False, notes=(), stubs=None,
-                 callee_contracts=None, bounded_ok=False, ghosts=None, replayer=None, consts=None, methods=None, scenarios=None, opaque=None, decl_disciplines=None, then=None, prefer_shadow=False, frame=True, max_paths=None, trusted=False):
+                 callee_contracts=None, bounded_ok=False, ghosts=None, replayer=None, consts=None, methods=None, scenarios=None, opaque=None, decl_disciplines=None, then=None, prefer_shadow=False, frame=True, max_paths=None, trusted=False, max_depth=None):
         self.file = file
         self.qual = qual
         self.name = name or f"{file}:{qual}"
@@ -53,6 +53,7 @@ class Contract:
         self.frame = frame                # add the implicit `modifies nothing` clause (C20)
         self.trusted = trusted
         self.max_paths = max_paths
+        self.max_depth = max_depth          # inlining depth of repo callees (default 12)
         self.ghosts = dict(ghosts or {})
         self.replayer = replayer
         self.consts = dict(consts or {})
@@ -62,11 +63,33 @@ class Contract:
         self.decl_disciplines = dict(decl_disciplines or {})
         self.opaque = dict(opaque or {})     # name -> (getter(module) -> callable, [exception classes])
         self.methods = dict(methods or {})   # method name -> discipline for calls on symbolic objects
+        if (self.scenarios is None and via is None and native is None and replayer is None and "." not in qual and self.params
+                and all(k == "D" or (isinstance(k, tuple) and k[0] in ("const", "constf")) for k in self.params.values())):
+            self.scenarios = self._plain_scenarios
         if self.name in REGISTRY:
             raise ValueError(f"duplicate contract {self.name}")
         REGISTRY[self.name] = self
         for p in self.props:
             BY_PROP.setdefault(p, []).append(self)
+
+    def _plain_scenarios(self, mod):
+        """native scenarios of a module-level function whose parameters are data of D and/or constants: the real function on
+        the representative of every cell (x the constants)"""
+        import itertools
+
+        from .universe import CELL_NAMES, N_CELLS, rep
+        fn = getattr(mod, self.qual)
+        axes = []
+        for n, k in self.params.items():
+            if k == "D":
+                axes.append([(n, CELL_NAMES[i], (lambda i=i: rep(i))) for i in range(N_CELLS)])
+            elif k[0] == "const":
+                axes.append([(n, None, (lambda v=k[1]: v))])
+            else:
+                axes.append([(n, None, (lambda f=k[1]: f(mod)))])
+        for combo in itertools.product(*axes):
+            label = ",".join(f"{n}={cn}" for n, cn, _ in combo if cn is not None) or "constants"
+            yield label, (lambda combo=combo: (fn, {n: mk() for n, _, mk in combo}, dict(self.consts)))
 
     def props_of(self, clause):
         base = clause.split("/")[0]
